@@ -664,6 +664,9 @@ class Interp:
         if d[0] == 'discr':
             v = d[1]
             if v is not None and v[0] == 'adt':
+                if v[1] == 'core::cmp::Ordering':
+                    # discriminants -1 / 0 / 1; a switch on it compares the i8 bit pattern
+                    return Int({'Less': 255, 'Equal': 0, 'Greater': 1}[v[2]])
                 return Int(self.variant_index(v))
             if v in st.assume:
                 return Int(st.assume[v])
